@@ -262,6 +262,10 @@ func KeyProgram(key string) (string, bool) {
 		if b, err := strconv.Unquote(key[5:]); err == nil {
 			return b, true
 		}
+	case strings.HasPrefix(key, "ctx="):
+		if b, ok := MatrixBody(key); ok {
+			return BareFileOf(b), true
+		}
 	default:
 		for _, c := range AllCells() {
 			if c.Name == key {
